@@ -524,6 +524,30 @@ func (v2pr Vector2PropertyReader) verifControlSENT1GoodAscii(element Element) as
 	return nil
 }
 
+// must fire: list position 0 treated as absent
+func verifControlSENT1BadIndex(element Element) (int, bool) {
+	texProp := -1
+	for i, prop := range element.Properties {
+		if prop.Name() == "texcoord" {
+			texProp = i
+		}
+	}
+	hasTex := texProp > 0
+	return texProp, hasTex
+}
+
+// must stay silent
+func verifControlSENT1GoodIndex(element Element) (int, bool) {
+	texProp := -1
+	for i, prop := range element.Properties {
+		if prop.Name() == "texcoord" {
+			texProp = i
+		}
+	}
+	hasTex := texProp != -1 && texProp >= 0
+	return texProp, hasTex
+}
+
 // ---- BYTES-1 ---------------------------------------------------------------
 
 func verifControlBYTES1Bad(data []byte) (*modeling.Mesh, error) {
